@@ -4,7 +4,7 @@
    (retained change sets + 1) issued (serial, data set) pairs, oldest first.
    Hypothesis [keep h < 2^31]: the retained window must fit in half the serial space. *)
 From Coq Require Import List NArith Bool.
-From RV Require Import Base.KMap Base.Serial32 C11.Model C11.Proofs C13.Model C13.Proofs.
+From RV Require Import Base.KMap Base.Serial32 C11.Model C11.Proofs C13.Model C13.Proofs C13.Spec C13.SpecProofs.
 Import ListNotations.
 Local Open Scope N_scope.
 
@@ -62,6 +62,14 @@ Proof.
   apply (win_len_bound h w (Reach_Inv _ _ R) K).
 Qed.
 
+(* The executable oracle evaluated on the implementation (C13.Spec.spec_okb: stated over the abstract
+   history = list of ALL issued versions, it never looks at retained change sets) holds of the model's
+   observations for every start state, every sequence of data sets and every list of queries, as long as
+   fewer than 2^32 versions were issued (serials then do not recur) and history-size < 2^31. *)
+Theorem C13_model_satisfies_spec : forall c, inputs_ok c = true -> c_keep c < H31 ->
+  N.of_nat (length (final_issued c)) <= M32 -> spec_okb (model_case c) = true.
+Proof. exact model_satisfies_spec. Qed.
+
 (* non-vacuity: a wrapped-around history with two retained change sets *)
 Example C13_nonvacuous :
   let a := {| origins := [(1, tt)]; rkeys := []; aspas := [] |} in
@@ -81,3 +89,5 @@ Check C13_unknown_refused : forall h w c, Reach h w -> w <> [] -> keep h < H31 -
   (forall g, ~ In (c, g) w) -> diff h true c = None.
 Check C13_window_served : forall h w c g, Reach h w -> keep h < H31 -> In (c, g) w ->
   diff h true c <> None.
+Check C13_model_satisfies_spec : forall c, inputs_ok c = true -> c_keep c < H31 ->
+  N.of_nat (length (final_issued c)) <= M32 -> spec_okb (model_case c) = true.
